@@ -117,6 +117,57 @@ Definition map_entries (range_order : list (bytes * bytes)) : list (bytes * byte
 Definition first_unresolved {A} (resolves : A -> bool) (range_order : list A) : option A :=
   find (fun x => negb (resolves x)) range_order.
 
+(* ---- the loop bodies of the remaining unordered iterations (MapRangeGen.sites): each takes the sequence in the
+   order the runtime delivered it; proofs/CmpbOrderProofs.v proves what each leaves independent of that order and
+   runs each on two orders ---------------------------------------------------------------------------------- *)
+(* j5convert setJ5Ext through RangeField, j5reflect copyReflect: for every populated field of the source message, in
+   Range order: find the destination field of that name; none / another kind -> stop with an error (copyReflect: panic);
+   else dest.Set(field, value).  None = the error (its text names the field: not observed), Some = the filled message *)
+Definition copy_fields {V} (dest_has : bytes -> bool) (range_order : list (bytes * V)) (dest : list (bytes * V))
+  : option (list (bytes * V)) :=
+  fold_left (fun acc kv => match acc with
+                           | None => None
+                           | Some m => if dest_has (fst kv) then Some (map_set (fst kv) (snd kv) m) else None
+                           end) range_order (Some dest).
+(* j5convert SourceSummary: `for _, ref := range importMap.vals { if ref.used { continue }; ec.WarnPos(...) }` *)
+Definition warn_unused {I W} (used : I -> bool) (warn : I -> W) (range_order : list I) : list W :=
+  map warn (filter (fun i => negb (used i)) range_order).
+(* walker/schema PrintScope: one log line per child field *)
+Definition log_children {C W} (line : C -> W) (range_order : list C) : list W := map line range_order.
+(* protobuild LintAll: the package's files in map order; the first one whose link fails, or after which the error
+   collector is not empty, ends the loop with that file's report *)
+Definition lint_all {File} (stops : File -> bool) (range_order : list File) : option File := find stops range_order.
+(* j5reflect mutableMapField.Range / leafMapField.Range: the callback per entry, stopping at its first error *)
+Definition range_entries {E Err} (cb : E -> option Err) (range_order : list E) : option Err :=
+  fold_left (fun acc e => match acc with Some err => Some err | None => cb e end) range_order None.
+(* protobuild findFileByPath: found / not found is the map lookup; maps.Keys(pkg.Files) only feeds the error text *)
+Definition find_file_by_path {R} (files : list (bytes * R)) (keys_order : list bytes) (name : bytes) : R + list bytes :=
+  match map_get name files with Some r => inl r | None => inr keys_order end.
+(* sourcewalk buildFieldNode: `tn.Range(func(fd, v) bool { name = fd.Name(); return false })`: the first populated
+   member of the Field.type oneof wrapper (a oneof: at most one is populated) *)
+Definition first_member (range_order : list bytes) : bytes := match range_order with x :: _ => x | [] => [] end.
+(* sourcewalk SourceNode.child: `options := maps.Keys(...)` is read only under `if false`: the node built next does
+   not mention it *)
+Definition child_ignores_options {A} (keys_order : list bytes) (node : A) : A := node.
+(* walker/schema allChildFields (aliases) and _buildSpec (newAliases): `if _, ok := m[name]; !ok { m[name] = ... }`,
+   in allChildFields after `schema, err := WalkToProperty(path...); if err != nil { continue }` *)
+Definition add_absent {P V} (walk : bytes * P -> option V) (range_order : list (bytes * P)) (children : list (bytes * V))
+  : list (bytes * V) :=
+  fold_left (fun acc np => match walk np with
+                           | None => acc
+                           | Some s => match map_get (fst np) acc with Some _ => acc | None => map_set (fst np) s acc end
+                           end) range_order children.
+(* walker/schema listChildren / listAttributes / listBlocks: the (filtered) keys in map order, then sort.Strings *)
+Definition list_fields {V} (can : V -> bool) (range_order : list (bytes * V)) : list bytes :=
+  sort_strings (map fst (filter (fun kv => can (snd kv)) range_order)).
+
+(* protobuild Package.checkDuplicateExports (fix 5b3591a; called by loadLocalPackage for every file before includeIO):
+   `names := maps.Keys(file.Summary.Exports); sort.Strings(names)`, then the first name the package already exports
+   ends loading with an error positioned in this file.  On a valid bundle (no type exported twice in a package) it
+   never fires *)
+Definition check_duplicate_exports {V} (pkg_exports : list (bytes * V)) (keys_order : list bytes) : option bytes :=
+  find (fun n => match map_get n pkg_exports with Some _ => true | None => false end) (sort_strings keys_order).
+
 (* ---- package loading on a PackageSet ------------------------------------------------------- *)
 (* A bundle: packages by name, each a list of source files; a file has a name, the type names it
    exports and the packages it depends on. [F] is whatever else a file carries (its content),
